@@ -128,7 +128,20 @@ func init() {
 			}
 		}
 		if _, done := st.concr[v.id]; !done {
-			st.assume(ex.tb.Ult(v, n))
+			// a fresh choice variable is constrained by nothing but its range: every value is feasible, so the
+			// alternatives are forked without consulting the solver (value 0 continues here)
+			for alt := n.c - 1; alt >= 1; alt-- {
+				child := st.clone()
+				child.assume(ex.tb.Eq(v, ex.c64(alt)))
+				child.concr[v.id] = alt
+				ex.push(child)
+				ex.forks++
+			}
+			if n.c == 0 {
+				panic(endPath{"Choose from an empty range"})
+			}
+			st.assume(ex.tb.Eq(v, ex.c64(0)))
+			st.concr[v.id] = 0
 		}
 		c := ex.concretize(st, v, "Choose "+vn)
 		st.choices = append(st.choices, fmt.Sprintf("%s#=%d", name, c))
@@ -212,6 +225,9 @@ func init() {
 			st.stepMsg = ex.strArg(args[1])
 		}
 		return ret(f, retTo, nil)
+	}
+	intrinsics[verifrtPath+"Thorough"] = func(ex *Exec, st *State, f *Frame, fn FuncV, args []Value, retTo ssa.Value, instr ssa.Instruction) bool {
+		return ret(f, retTo, ex.tb.Bool(ex.cfg.Thorough))
 	}
 	intrinsics[verifrtPath+"Symbolic"] = func(ex *Exec, st *State, f *Frame, fn FuncV, args []Value, retTo ssa.Value, instr ssa.Instruction) bool {
 		return ret(f, retTo, ex.tb.True())
